@@ -10,6 +10,10 @@ import traceback
 
 
 def main(argv=None):
+    if os.environ.get('PYTHONHASHSEED') != '0' and argv is None:
+        # deterministic set order (see vcheck): re-execute with the fixed seed when started some other way
+        os.environ['PYTHONHASHSEED'] = '0'
+        os.execv(sys.executable, [sys.executable, '-B', '-m', 'sa.main'] + sys.argv[1:])
     ap = argparse.ArgumentParser(prog='vcheck')
     ap.add_argument('pid')
     ap.add_argument('--tier', default=os.environ.get('VERIF_TIER', 'quick'), choices=['quick', 'thorough'])
